@@ -88,7 +88,8 @@ def cases(draw):
                 tx, ty = rnd.target("in" if k == "in" else "grid", draw(st.integers(0, 3)), draw(st.integers(0, 100)), draw(st.integers(0, 100)))
                 prog.append(["g", "G1 X%s Y%s%s" % (gen.fmt(tx), gen.fmt(ty), draw(st.sampled_from(["", " E1", " E-1", " Z2"])))])
             elif k == "ret":
-                prog.append(["g", draw(st.sampled_from(["G10", "G11", "G10 S1", "G11", "G1 E-2 F1800", "G1 E2", "G1 E-1", "G1 E3 F900", "G92 E0"]))])
+                prog.append(["g", draw(st.sampled_from(["G10", "G11", "G10 S1", "G11", "G1 E-2 F1800", "G1 E2", "G1 E-1", "G1 E3 F900", "G92 E0",
+                                                        "G1 E1.25", "G1 E1.249999", "G1 E1.2499999999", "G92 E0.0000001", "G1 E0", "G1 E-0.000001", "G10S1"]))])
             else:
                 prog.append(["g", draw(st.sampled_from(["M117 a", "M204 S5", "M204 T7", "M205 X Y5", "M73 P5", "G4 P1", "T0", "G5 X1 I1"]))])
         elif draw(st.integers(0, 11)) == 0:
